@@ -14,11 +14,19 @@ from ..tlcrun import run_many, gen_cfg, cleanup_gen
 from .. import harness, par
 
 PID = "C07"
-ATOM = {1: "a", 2: "é", 3: "€", 4: "\U0001F600"}
+ATOMS = [{1: "a", 2: "é", 3: "€", 4: "\U0001F600"},
+         {1: "\r", 2: "\r\n", 3: "€", 4: "\U0001F600"},          # carriage returns: a limited buffer must not translate line ends
+         {1: "a", 2: "é", 3: "\ud800", 4: "\U0001F600"}]         # a lone surrogate (3 bytes with surrogatepass): JSON-like data may hold one
+ATOM = ATOMS[0]
+
+
+def nbytes(text):
+    return len(text.encode("utf-8", errors="surrogatepass"))
 STRBASE = sys.getsizeof("")
 
 
-def concretize(case):
+def concretize(case, variant=0):
+    atom = ATOMS[variant % 3]
     prog = case["prog"]
     templates = {}
     counter = [0]
@@ -32,7 +40,7 @@ def concretize(case):
             if op == "close":
                 return "".join(out), i, last_cap
             if op == "text":
-                out.append(ATOM[r["n"]]); i += 1
+                out.append(atom[r["n"]]); i += 1
             elif op == "outcap":
                 out.append("{{ " + last_cap + " }}"); i += 1
             elif op == "assign":
@@ -70,14 +78,15 @@ def concretize(case):
 
 
 def replay_one(case):
-    src, templates = concretize(case)
+    variant = case.get("_variant", 0)
+    src, templates = concretize(case, variant)
     kw = {}
     if case["L"] >= 0:
         kw["output_limit"] = case["L"]
     if case["M"] >= 0:
         kw["ns_limit"] = case["M"]
     env = harness.make_env(templates=templates, **kw)
-    want_text = "".join(ATOM[a] for a in case["out"])
+    want_text = "".join(ATOMS[variant % 3][a] for a in case["out"])
     res = []
     for how in ("sync", "async"):
         o = harness.run(env, src, {}, how)
@@ -88,9 +97,9 @@ def replay_one(case):
         elif got == "ok":
             if o["out"] != want_text:
                 why = f"output {o['out']!r} differs from the specification's {want_text!r}"
-            elif len(o["out"].encode("utf-8")) != case["bytes"]:
-                why = f"{len(o['out'].encode('utf-8'))} bytes returned, specification says {case['bytes']}"
-            elif case["L"] >= 0 and len(o["out"].encode("utf-8")) > case["L"]:
+            elif nbytes(o["out"]) != case["bytes"]:
+                why = f"{nbytes(o['out'])} bytes returned, specification says {case['bytes']}"
+            elif case["L"] >= 0 and nbytes(o["out"]) > case["L"]:
                 why = f"completed render returned more than L={case['L']} bytes"
         res.append((how, why))
     return src, templates, res
@@ -133,6 +142,8 @@ def run(tier: str) -> int:
     if len(cases) > cap:
         ck.cov["sampled_from"] = len(cases)
         cases = rnd.sample(cases, cap)
+    for i, c in enumerate(cases):
+        c["_variant"] = i % 3 if c["family"] == "output" else 0
     for case, (src, templates, res) in zip(cases, par.pmap(replay_one, cases, chunk=256)):
         ck.case((case["family"], case["L"], case["M"], src), nontrivial=case["status"] != "ok" or case["bytes"] > 0)
         ck.validated()
